@@ -210,6 +210,12 @@ pub fn sign(l: &Logical, secret: &[u8], unix_secs: i64, region: &str, service: &
 
 /// Sign for an explicit scope string; the key is derived for (date, region, service).
 pub fn sign_scoped(l: &Logical, secret: &[u8], unix_secs: i64, scope: &str, kdate: &str, kregion: &str, kservice: &str) -> Signed {
+    let key = derive_key(secret, kdate, kregion.as_bytes(), kservice.as_bytes());
+    sign_with_key(l, &key, unix_secs, scope)
+}
+
+/// Sign for an explicit scope string with an explicit 32-byte signing key.
+pub fn sign_with_key(l: &Logical, key: &[u8; 32], unix_secs: i64, scope: &str) -> Signed {
     let amz_date = compact_utc(unix_secs);
     let creq = canonical_request(l);
     let mut sts = Vec::new();
@@ -219,8 +225,7 @@ pub fn sign_scoped(l: &Logical, secret: &[u8], unix_secs: i64, scope: &str, kdat
     sts.extend(scope.as_bytes());
     sts.push(b'\n');
     sts.extend(hex::encode(sha256(&creq)).as_bytes());
-    let key = derive_key(secret, kdate, kregion.as_bytes(), kservice.as_bytes());
-    let signature = hex::encode(hmac256(&key, &sts));
+    let signature = hex::encode(hmac256(key, &sts));
     Signed {
         canonical_request: creq,
         string_to_sign: sts,
